@@ -631,9 +631,34 @@ func ctorGoroutine(b *strings.Builder, f *ast.File, file, name, prefix string) {
 	die("%s: constructor %s not found", file, name)
 }
 
+// ctorMain: `go2deep -ctor <repo> <out.lean>` prints the goroutine and the finalizer of the two constructors
+func ctorMain(repo, out string) {
+	var b strings.Builder
+	b.WriteString("-- GENERATED by /verif/tools/go2deep -ctor from the working tree of /repo. Do not edit.\n")
+	b.WriteString("import CacheVerif.Deep.Syntax\nimport CacheVerif.Generated.Leaf\nnamespace Gen.Deep\nopen _root_.Deep\n\n")
+	for _, spec := range []struct{ file, recvType string }{{"xsync_map.go", "xsyncMap"}, {"xsync_mapof.go", "xsyncMapOf"}} {
+		f, err := parser.ParseFile(fset, filepath.Join(repo, spec.file), nil, 0)
+		if err != nil {
+			die("%v", err)
+		}
+		ctorGoroutine(&b, f, spec.file, "new"+strings.ToUpper(spec.recvType[:1])+spec.recvType[1:], spec.recvType)
+	}
+	b.WriteString("end Gen.Deep\n")
+	if old, err := os.ReadFile(out); err == nil && string(old) == b.String() {
+		return
+	}
+	if err := os.WriteFile(out, []byte(b.String()), 0o644); err != nil {
+		die("%v", err)
+	}
+}
+
 func main() {
+	if len(os.Args) == 4 && os.Args[1] == "-ctor" {
+		ctorMain(os.Args[2], os.Args[3])
+		return
+	}
 	if len(os.Args) != 3 {
-		die("usage: go2deep <repo> <out.lean>")
+		die("usage: go2deep [-ctor] <repo> <out.lean>")
 	}
 	repo, out := os.Args[1], os.Args[2]
 	var b strings.Builder
@@ -678,8 +703,6 @@ func main() {
 			fmt.Fprintf(&b, "theorem %s_lookup_%s : List.lookup %s %s = some %s_%s := by rfl\n", spec.recvType, n, str(n), spec.recvType, spec.recvType, n)
 		}
 		b.WriteString("\n")
-		ctorGoroutine(&b, f, spec.file, "new"+strings.ToUpper(spec.recvType[:1])+spec.recvType[1:], spec.recvType)
-		simpNames = append(simpNames, fmt.Sprintf("Gen.Deep.%s_janitor Gen.Deep.%s_finalizer", spec.recvType, spec.recvType))
 	}
 	b.WriteString("end Gen.Deep\n")
 	// companion file: the generated definitions and lookup lemmas join the simp set used for symbolic evaluation
